@@ -20,11 +20,17 @@ fn field_attr(f: &Field, id: usize, j: usize, owner: &str) -> String {
             }
         }
     }
+    // a boolean option spelled out as `= false` is the same as leaving it out
+    let spell = crate::ev::hash64(&(id, j, owner, "spelling"));
     if f.skip {
         opts.push(if (id + j) % 2 == 0 { "skip".into() } else { "skip = true".into() });
+    } else if spell % 7 == 0 && !f.flatten {
+        opts.push("skip = false".into());
     }
     if f.multiple {
-        opts.push("multiple".into());
+        opts.push(if spell % 3 == 0 { "multiple = true".into() } else { "multiple".into() });
+    } else if spell % 7 == 1 && !f.flatten {
+        opts.push("multiple = false".into());
     }
     if f.flatten {
         opts.push("flatten".into());
@@ -163,7 +169,9 @@ pub fn emit_spec(s: &Spec, extra_container: &str, magic_fields: &str, magic_obse
         Tr::AndThen => copts.push(format!("and_then = \"{}::ctr_and\"", name)),
     }
     if c.allow_unknown {
-        copts.push("allow_unknown_fields".into());
+        copts.push(if s.id % 3 == 0 { "allow_unknown_fields = true".into() } else { "allow_unknown_fields".into() });
+    } else if s.id % 7 == 3 {
+        copts.push("allow_unknown_fields = false".into());
     }
     match c.from_word {
         Call::None => {}
@@ -271,16 +279,26 @@ pub fn emit_spec(s: &Spec, extra_container: &str, magic_fields: &str, magic_obse
         }
         Body::Enum(vs) => {
             out.push_str(&format!("pub enum {} {{\n", name));
+            let mut word_false_used = false;
             for (i, v) in vs.iter().enumerate() {
                 let mut vo: Vec<String> = vec![];
                 if let Some(r) = &v.rename {
                     vo.push(format!("rename = {:?}", r));
                 }
+                // `= false` spellings must behave like the option being absent
+                let spell = crate::ev::hash64(&(s.id, i, "variant-spelling"));
                 if v.skip {
-                    vo.push("skip".into());
+                    vo.push(if spell % 3 == 0 { "skip = true".into() } else { "skip".into() });
+                } else if spell % 5 == 0 {
+                    vo.push("skip = false".into());
                 }
                 if v.word {
-                    vo.push("word".into());
+                    vo.push(if spell % 3 == 1 { "word = true".into() } else { "word".into() });
+                } else if spell % 3 == 1 && matches!(v.shape, VShape::Unit) && !vs.iter().any(|x| x.word) && c.from_word == Call::None && !word_false_used {
+                    // (the derive counts `word = false` as a word when it looks for a second one or for from_word:
+                    // at most one per enum, and never next to a real word variant / from_word)
+                    word_false_used = true;
+                    vo.push("word = false".into());
                 }
                 let attr = if vo.is_empty() { String::new() } else { format!("#[darling({})] ", vo.join(", ")) };
                 match &v.shape {
@@ -372,7 +390,7 @@ pub fn emit_registry(specs: &[Spec]) -> String {
 }
 
 pub fn emit_crate_source(specs: &[Spec]) -> String {
-    let mut s = String::from("// @generated by vgen\n#![allow(dead_code, unused_variables, non_camel_case_types, clippy::all)]\n\n");
+    let mut s = String::from("// @generated by vgen\n#![allow(dead_code, unused_variables, non_camel_case_types, non_snake_case, clippy::all)]\n\n");
     for sp in specs {
         s.push_str(&emit_spec(sp, "", "", ""));
         s.push_str(&emit_entry(sp));
@@ -731,6 +749,29 @@ pub fn c20_generics(d: &mut crate::dec::D, first_id: usize, count: usize) -> Vec
                 }
             ));
         }
+        // container-level options whose generated code mentions std types in signatures (a parameter may be
+        // called `Option` or `Result`)
+        let mut copts: Vec<&str> = vec![];
+        if tr == "FromMeta" {
+            if d.ratio(1, 3) {
+                copts.push("from_none = || ::core::option::Option::None");
+            }
+            if d.ratio(1, 3) && !is_enum {
+                copts.push("from_word = || ::darling::export::Err(::darling::Error::custom(\"w\"))");
+            }
+        }
+        if d.ratio(1, 4) {
+            copts.push("and_then = ::darling::export::Ok");
+        } else if d.ratio(1, 4) {
+            copts.push("map = ::core::convert::identity");
+        }
+        if d.ratio(1, 4) {
+            copts.push("allow_unknown_fields");
+        }
+        if d.ratio(1, 4) {
+            copts.push("rename_all = \"camelCase\"");
+        }
+        let copts = if copts.is_empty() { String::new() } else { format!("#[darling({})]\n", copts.join(", ")) };
         let attrs = if tr == "FromMeta" {
             ""
         } else if fwd {
@@ -740,9 +781,10 @@ pub fn c20_generics(d: &mut crate::dec::D, first_id: usize, count: usize) -> Vec
         };
         decl.push_str(&wrappers);
         decl.push_str(&format!(
-            "#[derive(::darling::{tr})]\n{attrs}pub {kw} GG{id}<{gl}>{wc} {{\n{body}}}\n",
+            "#[derive(::darling::{tr})]\n{attrs}{copts}pub {kw} GG{id}<{gl}>{wc} {{\n{body}}}\n",
             tr = tr,
             attrs = attrs,
+            copts = copts,
             kw = if is_enum { "enum" } else { "struct" },
             id = id,
             gl = gl.join(", "),
